@@ -145,15 +145,22 @@ def _q(lo=1, hi=50, den=12):
     return st.tuples(st.sampled_from([-1, 1]), st.integers(lo, hi), st.integers(1, den)).map(lambda t: [t[0] * t[1], t[2]])
 
 
-def _face_strategy(tier):
+def _face_variants(tier):
+    return [list(pr) for pr in PAIRS]
+
+
+def _face_strategy(tier, pair):
     @st.composite
     def case(draw):
-        dim, axis = draw(st.sampled_from(PAIRS))
+        dim, axis = pair
         n = 7
         return {
             "dim": dim, "axis": axis,
-            "field": draw(st.lists(_q(), min_size=n**dim, max_size=n**dim)),
-            "velocity": draw(st.lists(_q(), min_size=n**dim, max_size=n**dim)),
+            "field_key": draw(gen.block_keys),
+            "velocity_key": draw(gen.block_keys),
+            # explicit values around the tested face (cells i-2..i+3 along the axis): these shrink
+            "line_f": draw(st.lists(_q(), min_size=6, max_size=6)),
+            "line_u": draw(st.lists(_q(), min_size=6, max_size=6)),
             # pattern imposed on (u_i, u_{i+1}) at the tested face
             "pattern": draw(st.sampled_from(["as_drawn", "both_pos", "both_neg", "tie", "pos_dominant", "neg_dominant"])),
             "inv_dx": draw(_q(1, 30, 7)),
@@ -175,8 +182,12 @@ def _face_body(case, ctx):
     n = 7
     comp = "xyz".index(axis)
     a = dim - 1 - comp  # array axis
-    f = _fill(dim, n, case["field"])
-    u = _fill(dim, n, case["velocity"])
+    f = gen.rational_block(case["field_key"], (n,) * dim)
+    u = gen.rational_block(case["velocity_key"], (n,) * dim)
+    for k in range(6):
+        idx = tuple(1 + k if q == a else 3 for q in range(dim))
+        f[idx] = gen.to_fraction(case["line_f"][k])
+        u[idx] = gen.to_fraction(case["line_u"][k])
     ci = tuple([3] * dim)
     cj = tuple(3 + (1 if k == a else 0) for k in range(dim))
     pat = case["pattern"]
@@ -224,15 +235,18 @@ BLOCKS = ["eno_2d", "eno_3d", "diffusion_2d", "diffusion_3d", "forcing_2d", "for
           "penalised_3d", "filter_x", "filter_y", "filter_z"]
 
 
-def _block_strategy(tier):
+def _block_variants(tier):
+    return list(BLOCKS)
+
+
+def _block_strategy(tier, b):
     @st.composite
     def case(draw):
-        b = draw(st.sampled_from(BLOCKS))
         dim = 2 if b.endswith("2d") else 3
         n = 10 if b.startswith("eno") else 6
         nf = {"eno": 1 + dim, "dif": 1, "for": dim, "pen": 2 * dim, "fil": 1}[b[:3]]
-        return {"block": b, "n": n,
-                "values": draw(st.lists(st.lists(_q(), min_size=n**dim, max_size=n**dim), min_size=nf, max_size=nf)),
+        return {"block": b, "n": n, "keys": draw(st.lists(gen.block_keys, min_size=nf, max_size=nf)),
+                "centre": draw(st.lists(_q(), min_size=nf, max_size=nf)),
                 "p": draw(_q(1, 30, 7))}
 
     return case()
@@ -259,7 +273,9 @@ def _block_body(case, ctx):
     dim = 2 if b.endswith("2d") else 3
     p = gen.to_fraction(case["p"])
     g = ExactGrid((n,) * dim)
-    vals = [_fill(dim, n, v) for v in case["values"]]
+    vals = [gen.rational_block(k, (n,) * dim) for k in case["keys"]]
+    for v, c in zip(vals, case["centre"]):
+        v[(n // 2,) * dim] = gen.to_fraction(c)
     out = g.zeros("out")
     if b.startswith("eno"):
         g.set("field", _compact(vals[0], 4))  # support +- 2 stays inside the iterated cells [2, n-3]
@@ -319,7 +335,7 @@ PARTS = [
     Part(name="grid_sum", strategy=_sum_strategy, body=_sum_body,
          examples={"quick": 160, "thorough": 4000}, shards={"quick": 8, "thorough": 16}),
     Part(name="face_flux", strategy=_face_strategy, body=_face_body,
-         examples={"quick": 1200, "thorough": 40000}, shards={"quick": 4, "thorough": 8}),
+         examples={"quick": 1200, "thorough": 40000}, shards={"quick": 5, "thorough": 10}, variants=_face_variants),
     Part(name="block_sum", strategy=_block_strategy, body=_block_body,
-         examples={"quick": 330, "thorough": 6000}, shards={"quick": 5, "thorough": 16}),
+         examples={"quick": 330, "thorough": 6000}, shards={"quick": 6, "thorough": 11}, variants=_block_variants),
 ]
